@@ -1,7 +1,7 @@
 (* sexp <-> message / session values for the driver. *)
 From Coq Require Import ZArith NArith List Bool.
 From Coq.Strings Require Import Byte.
-From SV Require Import Base.Bytes Base.Py Base.Sexp Gen.Generated Asn1.Model Msg.Types Msg.Encode Msg.Decode Sess.Model.
+From SV Require Import Base.Bytes Base.Py Base.Sexp Gen.Generated Asn1.Model Msg.Types Msg.Encode Msg.Decode Sess.Model Filt.Text.
 Import ListNotations.
 Local Open Scope Z_scope.
 
@@ -205,5 +205,26 @@ Definition run_msg (cmd : Z) (args : list sexp) : option sexp :=
   | 110, [SInt r; cs] =>
       cs <-? g_list g_call cs ;;
       Some (SList (run_trace (init (if r =? 0 then Client else Server)) cs))
+  | _, _ => None
+  end.
+
+(* ---- filter text *)
+Definition s_fres {A} (f : A -> sexp) (r : fres A) : sexp :=
+  match r with
+  | FOk a => SList [SInt 0; f a]
+  | FErr (FSyn o l) => SList [SInt 1; SInt o; SInt l]
+  | FErr (FCrash k) => SList [SInt 2; SInt (crash_code k)]
+  end.
+
+Definition text_budget : nat := 600.
+
+Definition run_text (cmd : Z) (args : list sexp) : option sexp :=
+  match cmd, args with
+  | 200, [f] => f <-? g_filter filter_fuel f ;; Some (SBytes (print_filter f))
+  | 201, [s] => s <-? g_list g_n s ;; Some (s_fres s_filter (from_string text_budget s))
+  | 202, [f] => f <-? g_filter filter_fuel f ;;
+                let t := print_filter f in
+                Some (SList [SBytes t; s_fres s_filter (from_bytes text_budget t)])
+  | 203, [b] => b <-? g_bytes b ;; Some (s_fres s_filter (from_bytes text_budget b))
   | _, _ => None
   end.
